@@ -242,7 +242,12 @@ extern "C" int __sanitizer_install_malloc_and_free_hooks(void (*malloc_hook)(con
 namespace vf19 {
 inline void malloc_hook(const volatile void*, size_t n) {
   Scopes& s = scopes();
-  if (s.lib_depth > 0 && s.internal_depth == 0) { s.bypass_mallocs++; s.bypass_bytes += n; }
+  if (s.lib_depth > 0 && s.internal_depth == 0) {
+    s.bypass_mallocs++; s.bypass_bytes += n;
+    // triage aid (replay mode): VF19_TRACE_BYPASS=1 prints where the library allocates without the supplied allocator
+    static const bool trace = std::getenv("VF19_TRACE_BYPASS") != nullptr;
+    if (trace) { ++s.internal_depth; fprintf(stderr, "VF19 bypass malloc(%zu)\n", n); __sanitizer_print_stack_trace(); --s.internal_depth; }
+  }
 }
 inline void free_hook(const volatile void*) {}
 inline bool install_bypass_hooks() {
